@@ -101,7 +101,8 @@ def fresh_from_model(m):
 
 def check(case, rec):
     fs, fr = case['fs'], tuple(case['f_range'])
-    sigs = [gen.render_signal(s) for s in case['signals']]
+    sigs = [gen.render_signal(s).astype(float) for s in case['signals']]
+    buffer = np.zeros(len(sigs[0]))
     obj, model = None, None
     last_sig = None
     fits = 0
@@ -124,9 +125,15 @@ def check(case, rec):
                 pass
             else:
                 continue
-        if kind == 'fit':
+        if kind in ('fit', 'fit_buffer'):
             x = sigs[op[1] % len(sigs)]
-            res_obj = outcome(lambda: obj.fit(x.copy(), fs, fr))
+            if kind == 'fit_buffer':
+                # the caller keeps ONE array object and refills it in place before every fit (acquisition buffer)
+                buffer[:] = x
+                arg = buffer
+            else:
+                arg = x.copy()
+            res_obj = outcome(lambda: obj.fit(arg, fs, fr))
             res_fun = outcome(lambda: compute_features(x.copy(), fs, fr, **model.kwargs()))
             fresh = fresh_from_model(model)
             res_new = outcome(lambda: fresh.fit(x.copy(), fs, fr))
@@ -231,7 +238,7 @@ def check(case, rec):
                 gen.case_key_json(_plain(obj.burst_kwargs)) != gen.case_key_json(_plain(model.bk)):
             drifted = True
     rec.label('fits:%s' % (fits if fits < 3 else '>=3'), 'amp-fit' if amp_fit else 'no-amp-fit',
-              'refit-after-event' if fits_after_event else 'no-refit-after-event',
+              'refit-after-event' if fits_after_event else 'no-refit-after-event', 'buffer-fit' if 'fit_buffer' in history else 'no-buffer-fit',
               'object-dicts-drifted' if drifted else 'object-dicts-as-set')
     for k in set(history):
         rec.label('op:' + k)
@@ -292,6 +299,8 @@ def st_op(draw, band):
                                  'set_burst_option', 'set_burst_option', 'switch_method', 'switch_method', 'switch_center', 'read',
                                  'read', 'construct']))
     if kind == 'fit' or kind == 'load':
+        if kind == 'fit' and draw(st.integers(0, 3)) == 0:
+            kind = 'fit_buffer'
         return [kind, draw(st.integers(0, 3))]
     if kind == 'recompute':
         return [kind, draw(st.sampled_from([None, 0, 0.05, 0.1, 0.3]))]
@@ -362,6 +371,12 @@ def check_group(case, rec):
                     raise Violation('group-model-table', 'step %d position %s' % (step, p))
                 if not np.array_equal(mdl.sig, sig):
                     raise Violation('group-model-signal', 'step %d position %s' % (step, p))
+        elif op[0] == 'set_threshold':
+            valid = list(default_thresholds(m.method))
+            key = valid[op[1] % len(valid)]
+            v = int(op[2] * 8) % 4 + 1 if key == 'min_n_cycles' else op[2]
+            bg.thresholds[key] = v            # the settings object the group was constructed with / exposes
+            m.th[key] = v
         elif op[0] == 'recompute' and nfits and m.method == 'cycles':
             flat_models = [mm for r in bg.models for mm in (r if isinstance(r, list) else [r])]
             before = [mm.df_features.copy(deep=True) for mm in flat_models]
@@ -385,7 +400,9 @@ def strat_group(draw, tier):
     signals = [draw(gc.st_row_signal(band, n, k)) for k in range(5)]
     ops = []
     for _ in range(draw(st.integers(1, 4))):
-        if draw(st.integers(0, 3)) == 0:
+        if draw(st.integers(0, 2)) == 0:
+            if draw(st.integers(0, 2)) > 0:
+                ops.append(['set_threshold', draw(st.integers(0, 4)), draw(st.sampled_from([0.0, 0.125, 0.5, 0.875]))])
             ops.append(['recompute', draw(st.sampled_from([None, 0.05, 0.2]))])
         else:
             shape = draw(st.sampled_from([[1], [2], [3], [1, 2], [2, 2], [2, 1], [3, 2]]))
@@ -395,6 +412,6 @@ def strat_group(draw, tier):
 
 PARTS = [
     Part('object-history', check, strategy=strategy, budget={'quick': 640, 'thorough': 12000}, shards={'quick': 16, 'thorough': 16}),
-    Part('group-history', check_group, strategy=strat_group, budget={'quick': 64, 'thorough': 1500}, shards={'quick': 8, 'thorough': 16},
+    Part('group-history', check_group, strategy=strat_group, budget={'quick': 160, 'thorough': 3000}, shards={'quick': 16, 'thorough': 16},
          time_cap={'quick': 200, 'thorough': 3000}),
 ]
